@@ -184,7 +184,7 @@ def run(M, rec, tier, seed, k, n):
     g = G.NetGen(rng)
     symvals = O.SymVals(random.Random(9))
     sh = W.shapes_cycle()
-    for it in range(200 if tier == "quick" else 1500):
+    for it in range(200 if tier == "quick" else 3000):
         shape = next(sh)
         desc = g.all_kinds_network() if it % 6 == 0 else g.network(shape)[1]
         rec.seen("net_signatures", D.signature(desc))
